@@ -27,7 +27,7 @@ pub struct CEmitLog(pub Vec<(u32, bool, Option<Entity>)>);
 pub struct ServerLog(pub Vec<(CK, u32, Entity, Option<Entity>)>);
 /// Server-direction emissions performed in `Update` of the next server frame.
 #[derive(Resource, Default)]
-pub struct SEmitQueue(pub Vec<(SK, u32, SendMode, Option<Entity>)>);
+pub struct SEmitQueue(pub Vec<(SK, u32, SendMode, Option<Entity>, Option<Entity>)>);
 #[derive(Resource, Default)]
 pub struct DisconnectRequests(pub Vec<Entity>);
 /// `CList` events that reached server logic with a payload other than the one emitted for their sequence number.
@@ -84,7 +84,7 @@ fn client_emit(world: &mut World) {
 
 fn server_emit(world: &mut World) {
     let q = std::mem::take(&mut world.resource_mut::<SEmitQueue>().0);
-    for (kind, seq, mode, refent) in q {
+    for (kind, seq, mode, refent, refent2) in q {
         match kind {
             SK::Dep => {
                 world.send_event(ToClients { mode, event: SDep(seq, refent.unwrap()) });
@@ -99,6 +99,7 @@ fn server_emit(world: &mut World) {
                 world.send_event(ToClients { mode, event: SUnrel(seq) });
             }
             SK::Trig => match refent {
+                Some(r) if refent2.is_some() => world.server_trigger_targets(ToClients { mode, event: STrig(seq) }, vec![r, refent2.unwrap()]),
                 Some(r) => world.server_trigger_targets(ToClients { mode, event: STrig(seq) }, r),
                 None => world.server_trigger(ToClients { mode, event: STrig(seq) }),
             },
